@@ -903,8 +903,17 @@ class Extractor:
             n4 = 0
             for k in range(body_lo, body_hi):
                 if toks[k].kind == "id" and toks[k].text == "continue":
-                    if not (toks[k - 1].text == "{" and toks[k + 1].text == ";" and toks[k + 2].text == "}" and toks[k + 3].text != "else"):
-                        raise UnitError("R4: `continue` at %s is not a guard of the form `if c { continue; }`" % name)
+                    if not (toks[k - 1].text in ("{", ";", "}") and toks[k + 1].text == ";" and toks[k + 2].text == "}" and toks[k + 3].text != "else"):
+                        raise UnitError("R4: `continue` at %s is not the end of a guard of the form `if c { ..; continue; }`" % name)
+                    # the guard must be a plain `if` directly in the loop body (its block is not itself an else-branch)
+                    go = src.tbl[k + 2]
+                    hq = go - 1
+                    while hq > body_lo and not (toks[hq].kind == "punct" and toks[hq].text in "{};"):
+                        if toks[hq].kind == "punct" and toks[hq].text in ")]":
+                            hq = src.tbl[hq]
+                        hq -= 1
+                    if toks[hq + 1].text != "if":
+                        raise UnitError("R4: the block ending in `continue` in %s is not a plain `if` guard" % name)
                     # enclosing block of the if statement
                     depth, q = 0, k - 2
                     while q > body_lo:
@@ -947,34 +956,44 @@ class Extractor:
             n4 = 0
             for k in range(body_lo, body_hi):
                 if toks[k].kind == "id" and toks[k].text == "continue":
-                    if not (toks[k - 1].text == "{" and toks[k + 1].text == ";" and toks[k + 2].text == "}"):
-                        raise UnitError("R4TAIL: `continue` in %s is not alone in its block" % name)
+                    if not (toks[k - 1].text in ("{", ";", "}") and toks[k + 1].text == ";" and toks[k + 2].text == "}"):
+                        raise UnitError("R4TAIL: `continue` in %s is not the last statement of its block" % name)
                     pos = k + 2
-                    while toks[pos + 1].text == "else":
-                        q = pos + 2
-                        while toks[q].text != "{":
-                            if toks[q].kind == "punct" and toks[q].text in "([":
-                                q = src.tbl[q]
-                            q += 1
-                        pos = src.tbl[q]
-                    # now pos is the end of the if/else chain; the next token must close the loop body
-                    nxt = pos + 1
-                    if toks[nxt].text != "}":
-                        raise UnitError("R4TAIL: statements follow the if/else chain holding `continue` in %s" % name)
-                    # and that brace must be the body of a for/while loop: find its opener and the keyword before it
-                    o = src.tbl[nxt]
-                    hdr = o - 1
                     depth_ok = False
-                    while hdr > body_lo:
-                        if toks[hdr].kind == "punct" and toks[hdr].text in ")]":
-                            hdr = src.tbl[hdr] - 1
-                            continue
-                        if toks[hdr].kind == "id" and toks[hdr].text in ("for", "while", "loop"):
+                    while True:
+                        # skip the rest of an if/else chain this block belongs to
+                        while toks[pos + 1].text == "else":
+                            q = pos + 2
+                            while toks[q].text != "{":
+                                if toks[q].kind == "punct" and toks[q].text in "([":
+                                    q = src.tbl[q]
+                                q += 1
+                            pos = src.tbl[q]
+                        # the chain must end its enclosing block
+                        nxt = pos + 1
+                        if toks[nxt].text != "}":
+                            raise UnitError("R4TAIL: statements follow the if/else chain holding `continue` in %s" % name)
+                        # is that enclosing block a loop body?  find its opener and the keyword that starts its header
+                        o = src.tbl[nxt]
+                        hdr = o - 1
+                        is_loop = False
+                        while hdr > body_lo:
+                            if toks[hdr].kind == "punct" and toks[hdr].text in ")]":
+                                hdr = src.tbl[hdr] - 1
+                                continue
+                            if toks[hdr].kind == "id" and toks[hdr].text in ("for", "while", "loop"):
+                                is_loop = True
+                                break
+                            if toks[hdr].kind == "punct" and toks[hdr].text in "{};":
+                                break
+                            hdr -= 1
+                        if is_loop:
                             depth_ok = True
                             break
-                        if toks[hdr].kind == "punct" and toks[hdr].text in "{};":
+                        # an if / if-let / else block: it must again be in tail position one level up
+                        pos = nxt
+                        if pos >= body_hi:
                             break
-                        hdr -= 1
                     if not depth_ok:
                         raise UnitError("R4TAIL: `continue` in %s is not in tail position of a loop body" % name)
                     s0, s1 = toks[k].start - base, toks[k + 1].end - base
